@@ -617,7 +617,7 @@ package plenccodec
 
 //@ func plenccodec.*Descriptor.readAsMapEntry
 //@   safety C04 C13
-//@   requires[C04] len(d.Elements) >= 1        # only called for valid map entries (two elements)
+//@   requires[C04,C13] len(d.Elements) == 2        # only called for valid map entries (two elements)
 //@   loop 1 invariant[C04] 0 <= offset && offset <= l && l == len(data)
 //@   loop 1 decreases l - offset
 //@   loop 2 invariant[C04] 0 <= rangeindex + 1
@@ -625,7 +625,34 @@ package plenccodec
 //@   ensures[C04] err == nil ==> 0 <= n && n <= len(data)
 //@   # an entry of a string-keyed map is a key and a value in the output object, also when the key (the empty string)
 //@   # or the value (a zero) is omitted from the data: an entry with nothing in it still yields its key
-//@   ensures[C13] err == nil && len(data) == 0 && d.Elements[0].Type == 4 ==> called_Descriptor_read
+//@   ensures[C13] err == nil && len(data) == 0 && d.Elements[0].Type == 4 ==> called_Outputter_String && called_Descriptor_zero
+//@   # the flags follow the events: the key flag is raised with the key's walk or with the empty key put out in front of
+//@   # a value that comes first; the value flag with the value's walk; never a value before its key
+//@   loop 1 invariant[C13] (seenValue ==> seenKey) && (offset == 0 ==> !seenKey && !seenValue)
+//@   loop 1 step[C13] called_Descriptor_read ==> seenKey && (call_Descriptor_read_arg0 != d.Elements.ptr ==> seenValue)
+//@   loop 1 step[C13] called_Descriptor_read && call_Descriptor_read_arg0 != d.Elements.ptr && !head_seenKey ==> called_Outputter_String
+//@   loop 1 step[C13] !called_Descriptor_read ==> seenKey == head_seenKey && seenValue == head_seenValue
+//@   # what the data did not hold is put out at the end: the empty key, the zero of the value's type
+//@   ensures[C13] err == nil && loopdone_1 && !exit_seenKey ==> called_Outputter_String
+//@   ensures[C13] err == nil && loopdone_1 && !exit_seenValue ==> called_Descriptor_zero && call_Descriptor_zero_arg0 == d.Elements.ptr + 88
+//@   ensures[C13] err == nil && d.Elements[0].Type == 4 ==> loopdone_1
+
+//@ func plenccodec.*Descriptor.zero
+//@   safety C13
+//@   # exactly one value: null where absence means null, otherwise the zero of the described kind, an empty container
+//@   ensures[C13] d.ExplicitPresence ==> called_Outputter_Raw && !called_Outputter_Int64 && !called_Outputter_String && !called_Outputter_StartObject && !called_Outputter_StartArray
+//@   ensures[C13] !d.ExplicitPresence && d.Type == 0 ==> called_Outputter_Int64 && call_Outputter_Int64_arg1 == 0
+//@   ensures[C13] !d.ExplicitPresence && d.Type == 1 ==> called_Outputter_Uint64 && call_Outputter_Uint64_arg1 == 0
+//@   ensures[C13] !d.ExplicitPresence && d.Type == 2 ==> called_Outputter_Float32
+//@   ensures[C13] !d.ExplicitPresence && d.Type == 3 ==> called_Outputter_Float64
+//@   ensures[C13] !d.ExplicitPresence && d.Type == 4 ==> called_Outputter_String && len(call_Outputter_String_arg1) == 0
+//@   ensures[C13] !d.ExplicitPresence && d.Type == 7 ==> called_Outputter_Bool && !call_Outputter_Bool_arg1
+//@   ensures[C13] !d.ExplicitPresence && d.Type == 8 ==> called_Outputter_Time
+//@   ensures[C13] !d.ExplicitPresence && d.Type == 11 && d.LogicalType != 1 ==> called_Outputter_Int64 && call_Outputter_Int64_arg1 == 0
+//@   ensures[C13] !d.ExplicitPresence && d.Type == 11 && d.LogicalType == 1 ==> called_Outputter_Time
+//@   ensures[C13] !d.ExplicitPresence && (d.Type == 6 || d.Type == 9) ==> called_Outputter_StartObject && called_Outputter_EndObject && !called_Outputter_StartArray
+//@   ensures[C13] !d.ExplicitPresence && d.Type == 10 ==> called_Outputter_StartArray && called_Outputter_EndArray && !called_Outputter_StartObject
+//@   ensures[C13] !d.ExplicitPresence && d.Type == 5 ==> (called_Outputter_StartArray && called_Outputter_EndArray && !called_Outputter_StartObject) || (called_Outputter_StartObject && called_Outputter_EndObject && !called_Outputter_StartArray)
 
 //@ func plenccodec.*Descriptor.readAsJSON
 //@   safety C04 C13 C16
